@@ -6,6 +6,16 @@ def E(name, src, model=None, quick=None, thorough=None, **kw):
     return d
 
 PROPS = {
+    "C01": dict(
+        lean_props=["H4.Props.C01"],
+        engines=[
+            E("elem", "e_elem.c", model="elem", quick=dict(cases=1200, chunk=40), thorough=dict(cases=20000, seeds=8, chunk=100), wrap=True),
+        ],
+        trusted_base=["directory encoding on disk (DD blocks, tag tree) is represented by its extents only: C12/C02",
+                      "external-file, compressed and chunked elements are not part of this engine (C03/C04/C05)",
+                      "stdio interposition (ld --wrap) used by the engine for the uninitialised-byte regression oracle"],
+        assumptions=["stdio stream = byte array, a gap created by writing past the end reads as zeros; single-threaded; all offsets and lengths within int32 (the model is unbounded)"],
+    ),
     "C12": dict(
         lean_props=["H4.Props.C12"],
         engines=[
@@ -209,15 +219,5 @@ PENDING = {
                       "special-element internals (linked-block, external, compressed, chunked) beyond their access checks are not modelled (result `pass`)"],
         assumptions=["the operating system lets the process open the file for update (no OS-level permission failure); DFACC_CREATE opens are outside the property",
                      "access rights are per FILE RECORD (all file ids of one path share it): read-only = no live Hopen of that path ever asked for DFACC_WRITE"],
-    ),
-    "C01": dict(
-        lean_props=["H4.Props.C01"],
-        engines=[
-            E("elem", "e_elem.c", model="elem", quick=dict(cases=1200, chunk=40), thorough=dict(cases=20000, seeds=8, chunk=100), wrap=True),
-        ],
-        trusted_base=["directory encoding on disk (DD blocks, tag tree) is represented by its extents only: C12/C02",
-                      "external-file, compressed and chunked elements are not part of this engine (C03/C04/C05)",
-                      "stdio interposition (ld --wrap) used by the engine for the uninitialised-byte regression oracle"],
-        assumptions=["stdio stream = byte array, a gap created by writing past the end reads as zeros; single-threaded; all offsets and lengths within int32 (the model is unbounded)"],
     ),
 }
